@@ -34,6 +34,7 @@ Nines == <<57,57,57,57,57,57,57,57,57,57,57,57,57,57,57,57,57,57,57,57>>
 Big == <<51,48,48,48,48,48,48,48,48,48>>                       \* 3000000000 > 2^31
 RangeVals == { Nines \o <<45,87,48,49>>, Nines \o <<45,48,49,45,48,49>>, Nines \o <<45,48,49>>,
                Nines \o <<45,48,49,45,48,49,84,48,48,58,48,48>>, Big \o <<45,87,48,49>>, Big \o <<45,49,50,45,51,49>>,
+               Big \o <<45,48,50,45,50,57>>, Big \o <<45,48,50,45,50,57,84,48,48,58,48,48>>,       \* 3000000000-02-29 (a leap year beyond every C integer / datetime range), also as local date-time
                <<48,48,48,48,45,87,48,49>>, <<50,48,50,48,45,87,53,51>>, <<50,51,58,53,57>>, <<45,46,53>>, <<49,101,57,57,57>> }
 Shapes(nm) == { [v |-> <<>>, list |-> FALSE, odd |-> ""], [v |-> Junk, list |-> FALSE, odd |-> ""],
                 [v |-> ValueOf(nm), list |-> FALSE, odd |-> ""], [v |-> Long, list |-> FALSE, odd |-> ""] }
